@@ -205,7 +205,8 @@ def build_call(ctx, r, spec, op, axis):
             ('x2', lambda v, i, m: v * 2),
             ('plus1', lambda v, i, m: v + 1),
             ('zero-small', lambda v, i, m: np.where(v > 2, v, 0.)),
-            ('inplace-writer', _writes_in_place)])
+            ('inplace-writer', _writes_in_place),
+            ('metadata-writer', _writes_metadata)])
         args = {'f': name}
         return (lambda t, ip: t.transform(f, axis=axis, inplace=ip)), args, \
             tables
@@ -313,6 +314,14 @@ def build_call(ctx, r, spec, op, axis):
         args = {'align_axis': ax}
         return (lambda t, ip: t.align_to(other, axis=ax)), args, tables
     raise ValueError(op)
+
+
+def _writes_metadata(v, i, m):
+    # a user function that annotates the metadata entry it is handed (the
+    # entry of the table being transformed: the copy, when inplace=False)
+    if m is not None:
+        m['seen by f'] = float(np.sum(v))
+    return v * 2
 
 
 def _writes_in_place(v, i, m):
